@@ -5,10 +5,10 @@ HERE = os.path.dirname(os.path.abspath(__file__))
 
 CHECKS = {
  "C08": ("differential simulation: generated protothread programs run stacklessly (header under test) and as stackful coroutines (independent reference header) in lock step under one seeded schedule of resumptions and environment changes",
-         "Programs are generated from the PT_* grammar (effects, yields, waits, wait-untils with observable re-evaluation, if/else, bounded loops, exits/fails, spawned and called children to depth 3) from VERIF_SEED at every build and the same body text is compiled against include/librfn/protothreads.h and against a reference header that implements the macros over swapcontext coroutines; the tape chooses the program, environment flips, spurious resumptions and re-initialisation after exit; after every invocation the returned state, the effects executed and all persistent variables must be equal.",
+         "Programs are generated from the PT_* grammar (effects, yields, waits, wait-untils with observable re-evaluation, if/else, bounded loops, exits/fails, spawned and called children to depth 3) from VERIF_SEED at every build and the same body text is compiled against include/librfn/protothreads.h and against a reference header that implements the macros over swapcontext coroutines; child-pointer arguments and conditions sometimes carry traced side effects (each must be evaluated exactly once) and children run under PT_CALL sometimes block up to 70001 times; the tape chooses the program, environment flips, spurious resumptions and re-initialisation after exit; after every invocation the returned state, the effects executed and all persistent variables must be equal.",
          "The reference header is the trusted base; the generator keeps to the property's scope (one blocking macro per line, none inside a switch, PT_CHILD_OK consulted before the next blocking point, PT_CALL only of children without environment-dependent waits)."),
  "C15": ("seeded character streams delivered three ways (console_process; console_eval from a second fibre under the real scheduler; console_putchar from simulated interrupts/threads with ring overflow) against a reference line editor, tokeniser and dispatcher; ASan exact-size console, bounds monitor",
-         "Seeded exploration of registration orders and counts (0-35 commands, beyond the table capacity) and of character streams (clean and messy lines, quotes, backspace, Ctrl-C, lines padded to 76-82 characters, yielding/sleeping/failing commands with input arriving meanwhile) through all three delivery paths; what each command saw (argc, argv copies, pointer containment in the line buffer) and the unknown-command output are compared with a reference editor/tokeniser applied to exactly the characters that entered the ring; eval injections must complete and execute each line once.",
+         "Seeded exploration of registration orders and counts (0-35 commands, beyond the table capacity) and of character streams (clean and messy lines, quotes, backspace, Ctrl-C, lines padded to 76-82 characters, yielding/sleeping/failing commands with input arriving meanwhile) through all three delivery paths; what each command saw (argc, argv copies, pointer containment in the line buffer) and the unknown-command output are compared with a reference editor/tokeniser applied to exactly the characters that entered the ring; eval injections must complete and execute each line once, also while a second console instance is being fed by its own injecting fibre.",
          "Lines beginning with white space or a quote, empty quotes, unterminated quotes and text glued to quotes are judged for safety, containment and dispatch only (the statement does not define their arguments); the character arriving when 79 are held is always followed by a junk line so both readings of its fate agree."),
  "C06": ("deterministic simulation of the fibre scheduler under a discrete-event main loop with interrupt-context calls injected between any two atomic operations or library data accesses (nested to depth 2) and from free-running sender contexts; obligation, exactly-once, ordering and queue-health oracles after a fault-free run to quiescence",
          "Seeded search over placements of up to 24 interrupt-context calls (fibre_run_atomic, fibre_eventq_claim/send, including back-to-back bursts that fill the 8-deep wake-up queue) inside fibre_scheduler_next, fibre_run, fibre_kill, the drain loop, fibre bodies and other handlers, and over thread schedules of 1-3 senders; every accepted wake-up becomes an obligation that a later dispatch must discharge unless a kill withdraws or overlaps it, dispatches never exceed reasons, accepted events arrive exactly once, intact and in real-time order, the system must quiesce within 64 passes and the queues must then dispatch a known run order exactly.",
@@ -32,22 +32,22 @@ CHECKS = {
          "Every value returned by fibre_scheduler_next in the C01/C02-style histories (both swarms) is compared with the reference: t if anything is runnable on return (run queue, the fibre that just yielded, an accepted undrained atomic request), else the earliest pending due time, else t+FIBRE_UNBOUNDED_SLEEP; the closing flush sleeps exactly until the returned time and every owed dispatch must still happen.",
          "Part (c) runs the real POSIX main loop (posix/fibre_posix.c) on the simulated clock with time_now() and a link-time wrapped usleep() as seams and judges every decision to sleep against the pending timeouts and runnable fibres. Part (a) is sequential histories (h_fibre); part (b) (h_irq, sim flavour) places interrupts inside fibre_scheduler_next and, whenever the scheduler says sleep, re-runs a pass at the same instant with interrupts held off: a dispatch there is excused only by a request published after the scheduler's last look at the wake-up queue, and no known pending timeout may lie before the returned time."),
  "C10": ("seeded (geometry, history) pairs against a bounded-FIFO reference model; both construction routes in lock step; ASan exact-size storage",
-         "Seeded exploration over queue depth 1..32 (weight on 1, 2, 31, 32), message size 1..40, slack bytes and construction route (messageq_init, MESSAGEQ_VAR_INIT with run-time values, or both in lock step) with histories of claim, reordered send, receive, delayed release and empty; every pointer/NULL result is compared with a cyclic-counter/FIFO model and slack bytes are checked after every operation.",
+         "Seeded exploration over queue depth 1..32 (weight on 1, 2, 31, 32), message size 1..40 (one run in 40: 255..65535), slack bytes and construction route (messageq_init, MESSAGEQ_VAR_INIT with run-time values or expression arguments, or both in lock step) with histories of claim, reordered send, receive, delayed release and empty, 10-2400 operations long and one run in 300 extended by up to 131100 checked plain cycles (16-bit counters wrap); every pointer/NULL result is compared with a cyclic-counter/FIFO model and slack bytes are checked after every operation.",
          "Sequential histories only (concurrency is C04); releases follow receives and sends name claimed buffers (the API's rules)."),
  "C14": ("seeded stream-fault injection (truncation, hostile size fields, bit flips, noise) into reference headers; independent 64-bit chunk walker plus prefix/incremental-reader self-consistency oracles; ASan exact-size buffers",
-         "Seeded exploration of byte streams: well-formed headers from a reference writer subjected to tape-chosen fault sequences, and pure noise, each decoded from an exact-size heap block; accepted lengths must be at least the minimum, equal the structural length of consistent headers, be exact, and every proper prefix of an accepted header (all are tried) plus a chunked incremental reader must never succeed early; the three helper functions are run on every resulting structure with allocation failures injected.",
+         "Seeded exploration of byte streams: well-formed headers from a reference writer (fmt extensions up to 65535 bytes) subjected to tape-chosen fault sequences (hostile sizes, field extremes, bit flips, magic corruption, foreign chunk ids from a dictionary, tails up to 1 MiB, truncation), and pure noise, each decoded from an exact-size heap block; accepted lengths must be at least the minimum, equal the structural length of consistent headers, be exact, and every proper prefix of an accepted header (all are tried) plus a chunked incremental reader must never succeed early; the three helper functions are run on every resulting structure with allocation failures injected.",
          "Which malformed inputs are rejected is not judged (the property does not prescribe it); the structural-length oracle applies only to headers the independent walker finds consistent."),
  "C09": ("seeded operation histories checked step by step against a vector reference model; tape shrinking and exact replay",
-         "Seeded exploration of list operation histories (8 nodes, 3 lists, 3 iterators, up to 40 operations) with a vector-of-ids reference model compared after every operation: full traversal, every return value, iterator positions, cleared links. History-only: this property has no fault or schedule dimension and the evidence says so.",
+         "Seeded exploration of list operation histories (8 nodes - one run in 150: 1030-2400 nodes with a list prefilled to around 1024 entries or the whole pool - 3 lists, 3 iterators, up to 40 operations including NULL node arguments) with a vector-of-ids reference model compared after every operation: full traversal, every return value, iterator positions, cleared links. History-only: this property has no fault or schedule dimension and the evidence says so.",
          "Iterators are exercised only while valid by the property's scope (no mutation of their list through another path); ASan/UBSan and a step budget guard memory safety and termination."),
  "C12": ("seeded pack/unpack sequences with the buffer end injected at a chosen byte; byte-stream reference model; ASan exact-size buffers",
-         "Seeded exploration of pack/unpack operation sequences in which the end of an exact-size heap buffer (the fault) is placed inside a tape-chosen operation at a tape-chosen byte, including exact fit, size 0, NULL pointers and one huge request; buffer image, returned values, zero fill and both counters are compared with a byte-vector model with sticky overflow after every call.",
+         "Seeded exploration of pack/unpack operation sequences in which the end of an exact-size heap buffer (the fault) is placed inside a tape-chosen operation at a tape-chosen byte, including exact fit, size 0, NULL pointers and one huge request; every call names the API function directly with counted argument expressions (each argument must be evaluated exactly once); buffer image, returned values, zero fill and both counters are compared with a byte-vector model with sticky overflow after every call.",
          "Only the implemented functions of pack.c can be exercised; total requested bytes stay below 2^31 (the property's scope)."),
  "C20": ("seeded log histories with counter-jump, allocation-failure and sink faults against a deque-of-256 model; brute-force 2^31 run in the thorough tier",
-         "Seeded exploration of mlog/mlog_nice/mlog_clear/get_line/dump histories with message counts steered to the ring boundaries; the counter word is located in the library's data segment by behaviour and moved to just below its fold point so histories continue across the 2^31 wrap; the thorough tier additionally really logs 2^31 messages and compares the resulting library state with the shortcut.",
+         "Seeded exploration of mlog/mlog_nice/mlog_clear/get_line/dump histories (formats with up to three arguments, including width and precision taken from the arguments, empty lines and lines of 60-100 characters) with message counts steered to the ring boundaries; the counter word is located in the library's data segment by behaviour and moved to just below its fold point so histories continue across the 2^31 wrap; the thorough tier additionally really logs 2^31 messages and compares the resulting library state with the shortcut.",
          "The counter jump assumes the log is a circular buffer indexed by the message count modulo 256 (validated by the brute-force run in the thorough tier; if the counter word cannot be located the jump is skipped and reported as a probe)."),
  "C19": ("seeded simulation of a shaft and noisy signal line; integer-position reference model checked after every sample; tape shrinking and exact replay",
-         "Seeded exploration of encoder signal histories with line faults (bounce, repeated and missed samples, reversals, garbage) from start positions next to the 8-, 14- and 16-bit wrap points; every reading is compared with an unbounded integer model derived from the state sequence. Sampling, not enumeration.",
+         "Seeded exploration of encoder signal histories with line faults (bounce, repeated and missed samples, reversals, garbage, periodic patterns of 1-4 states repeated up to 2000 times) from start positions next to the 8-, 14- and 16-bit wrap points; every reading is compared with an unbounded integer model derived from the state sequence. Sampling, not enumeration.",
          "Model is the property statement (single-bit transition = +-1, latch at detent); the 'within one click' clause is enforced only on histories without two-bit jumps."),
 }
 NA = {
